@@ -82,6 +82,18 @@ func init() {
 		}
 		return "ok " + hx([]byte(seqio.INSDCFormatter{Table: ff, Prefix: "     ", Depth: 21}.String()))
 	}
+	ops["refs_slice"] = func(a []string) string {
+		f := seqio.GenBankFields{Molecule: gts.Molecule(string(unhx(a[0])))}
+		for _, r := range parseSx(a[3])[0].list {
+			f.References = append(f.References, sxRef(r))
+		}
+		out := f.Slice(atoi(a[1]), atoi(a[2])).(seqio.GenBankFields)
+		parts := make([]string, len(out.References))
+		for i, r := range out.References {
+			parts[i] = refSx(r)
+		}
+		return "ok (" + strings.Join(parts, " ") + ")"
+	}
 	ops["wrap_space"] = func(a []string) string {
 		return "ok " + hx([]byte(wrap.Space(string(unhx(a[0])), atoi(a[1]))))
 	}
@@ -153,14 +165,7 @@ func gbSx(gb seqio.GenBank, residues bool) string {
 		dbl = append(dbl, fmt.Sprintf("(%s %s)", hxs(p.Key), hxs(p.Value)))
 	}
 	for _, r := range f.References {
-		pm := "-"
-		if r.Xref != nil {
-			if v, ok := r.Xref["PUBMED"]; ok {
-				pm = hxs(v)
-			}
-		}
-		refs = append(refs, fmt.Sprintf("(REF %d %s %s %s %s %s %s %s)", r.Number, hxs(r.Info), hxs(r.Authors),
-			hxs(r.Group), hxs(r.Title), hxs(r.Journal), pm, hxs(r.Comment)))
+		refs = append(refs, refSx(r))
 	}
 	for _, e := range f.Extra {
 		extra = append(extra, fmt.Sprintf("(%s %s)", hxs(e.Name), hxs(e.Value)))
@@ -210,13 +215,7 @@ func sxGB(x *sx) seqio.GenBank {
 	f.Keywords = sxStrs(a[10])
 	f.Source = seqio.Organism{Species: s(11), Name: s(12), Taxon: sxStrs(a[13])}
 	for _, r := range a[14].list {
-		q := r.list
-		t := func(i int) string { return string(unhx(q[i].atom)) }
-		ref := seqio.Reference{Number: atoi(q[1].atom), Info: t(2), Authors: t(3), Group: t(4), Title: t(5), Journal: t(6), Comment: t(8)}
-		if q[7].atom != "-" {
-			ref.Xref = map[string]string{"PUBMED": t(7)}
-		}
-		f.References = append(f.References, ref)
+		f.References = append(f.References, sxRef(r))
 	}
 	f.Comments = sxStrs(a[15])
 	for _, e := range a[16].list {
@@ -231,4 +230,25 @@ func sxGB(x *sx) seqio.GenBank {
 		ff = append(ff, sxFeat(e))
 	}
 	return seqio.GenBank{Fields: f, Table: ff, Origin: seqio.NewOrigin(unhx(a[20].atom))}
+}
+
+func refSx(r seqio.Reference) string {
+	pm := "-"
+	if r.Xref != nil {
+		if v, ok := r.Xref["PUBMED"]; ok {
+			pm = hxs(v)
+		}
+	}
+	return fmt.Sprintf("(REF %d %s %s %s %s %s %s %s)", r.Number, hxs(r.Info), hxs(r.Authors),
+		hxs(r.Group), hxs(r.Title), hxs(r.Journal), pm, hxs(r.Comment))
+}
+
+func sxRef(r *sx) seqio.Reference {
+	q := r.list
+	t := func(i int) string { return string(unhx(q[i].atom)) }
+	ref := seqio.Reference{Number: atoi(q[1].atom), Info: t(2), Authors: t(3), Group: t(4), Title: t(5), Journal: t(6), Comment: t(8)}
+	if q[7].atom != "-" {
+		ref.Xref = map[string]string{"PUBMED": t(7)}
+	}
+	return ref
 }
